@@ -154,7 +154,8 @@ class C04(Check):
                 ops.append(["calibrate", rng.randint(1, 2)])
             elif u < 0.93:
                 c2 = copy.deepcopy(cfg)
-                variant = rng.choice(["same-run-again", "same-run-again", "other-seed", "other-ensemble", "other-length", "other-dims", "other-lineup"])
+                variant = rng.choice(["same-run-again", "same-run-again", "other-seed", "other-ensemble", "other-length", "other-dims", "other-lineup",
+                                      "other-loss", "other-loss"])
                 if variant != "same-run-again":
                     c2["cal_seed"] = rng.randrange(2 ** 31)
                 if variant == "other-ensemble":
@@ -164,6 +165,9 @@ class C04(Check):
                     c2["sim_length"] = None
                 elif variant == "other-dims":
                     c2["space"] = calsim.gen_space(rng, len(cfg["space"]["precision"]) % 4 + 1)
+                elif variant == "other-loss":
+                    c2["loss"] = calsim.gen_loss(rng, cfg["model"]["D"], [k for k in ("minkowski", "msm", "fourier") if k != cfg["loss"]["cls"]])
+                    c2["sim_length"] = None
                 elif variant == "other-lineup":
                     c2["lineup"] = calsim.gen_lineup(rng, rl=cfg["scheduler"]["kind"] == "rl")
                 ops.append(["new_run", c2, variant])
